@@ -1346,6 +1346,13 @@ int32 matrixResumeSession(ssl_t *ssl)
     {
         return PS_ARG_FAIL;
     }
+    if (ssl->sessionIdLen != SSL_MAX_SESSION_ID_SIZE)
+    {
+        /* Every id we issue is SSL_MAX_SESSION_ID_SIZE bytes.  A shorter
+           one must not match on its prefix (the first four bytes are just
+           the table index). */
+        return PS_FAILURE;
+    }
     id = ssl->sessionId;
 
     i = (id[3] << 24) + (id[2] << 16) + (id[1] << 8) + id[0];
